@@ -66,12 +66,13 @@ pub fn main() {
          distinct by (case hash, schedule)",
     );
     run.assume("a resolver start is observable as a Start event logged before the resolver awaits its gate");
-    let cases = run.scale(600, 30_000);
+    let cases = run.scale(6_000, 150_000);
     let randoms = run.scale(4, 20) as usize;
     run.set_floors(1000, 200);
     run.require_counter("mutations_with_2plus_roots");
     let shards = n_shards(&run);
     let run = &run;
+    crate::witness::c04(run);
     std::thread::scope(|sc| {
         for shard in 0..shards {
             sc.spawn(move || {
